@@ -333,6 +333,43 @@ M2('c12-json-serialize-never-bound', 'C12', 'R8', [
     {'file': JS, 'old': "            self.serialize = self._serialize_b  # type: ignore[method-assign]\n", 'new': ""},
     {'file': JS, 'old': "            self.serialize = self._serialize_s  # type: ignore[method-assign]\n", 'new': ""},
     {'file': JS, 'old': "            self._serialize_sync = self.serialize\n", 'new': "            self._serialize_sync = self._serialize_s\n"}])
+# preserving/k3-c12-2 (the probe-and-bind block moved into a same-class helper called from __init__) is read through the helper:
+# silent as is; with the bytes arm's serialize binding dropped inside the helper the slot is unbound on that path again
+_K3_OLD = """        # PERF(kgriffs): Test dumps once up front so we can set the
+        #     proper serialize implementation.
+        result = self._dumps({'message': 'Hello World'})
+        if isinstance(result, str):
+            self.serialize = self._serialize_s  # type: ignore[method-assign]
+            self.serialize_async = self._serialize_async_s  # type: ignore[method-assign]
+        else:
+            self.serialize = self._serialize_b  # type: ignore[method-assign]
+            self.serialize_async = self._serialize_async_b  # type: ignore[method-assign]
+
+        # NOTE(kgriffs): To be safe, only enable the optimized protocol when
+        #   not subclassed.
+        if type(self) is JSONHandler:
+            self._serialize_sync = self.serialize
+            self._deserialize_sync = self._deserialize
+"""
+_K3_NEW = """        self._bind_serializers()
+
+        if type(self) is JSONHandler:
+            self._serialize_sync = self.serialize
+            self._deserialize_sync = self._deserialize
+
+    def _bind_serializers(self) -> None:
+        result = self._dumps({'message': 'Hello World'})
+        if isinstance(result, str):
+            self.serialize = self._serialize_s  # type: ignore[method-assign]
+            self.serialize_async = self._serialize_async_s  # type: ignore[method-assign]
+        else:
+%s            self.serialize_async = self._serialize_async_b  # type: ignore[method-assign]
+"""
+M('c12-k3-helper-bound-slots-bytes-arm-dropped', 'C12', 'R8', JS, _K3_OLD, _K3_NEW % '', also=('C19',))
+M('c12-k3-helper-bound-slots-bytes-arm-conditional', 'C12', 'R8', JS, _K3_OLD,
+  _K3_NEW % "            if type(self) is JSONHandler:\n                self.serialize = self._serialize_b\n", also=('C19',))
+M('c12-k3-helper-never-called', 'C12', 'R8', JS, _K3_OLD, _K3_NEW.replace("        self._bind_serializers()\n\n", "") %
+  "            self.serialize = self._serialize_b\n", also=('C19',))
 # negative controls (exit 0): serialize_async left to the base class in one arm (it delegates to serialize); the two arms swapped with the test
 # negated; `self.serialize = self._serialize_s if isinstance(result, str) else self._serialize_b`; a class-level `def serialize` dispatching on a flag
 
